@@ -185,6 +185,20 @@ func (u *Universe) useNonNilCount() {
 		fmt.Sprintf("(assert (forall ((a %s) (off Int) (n Int)) (! (=> (forall ((j Int)) (=> (and (<= off j) (< j (+ off n))) (= (sarr (select a j)) 0))) (= (nncnt a off n) 0)) :pattern ((nncnt a off n)))))", arr))
 }
 
+// usePrefixLen declares the prefix-sum function behind the spec builtin `prefixlen` with its two
+// defining equations (primitive recursion on the index: a conservative definition, not an assumption
+// about the program) and the frame fact that it depends only on the entries below the index.
+func (u *Universe) usePrefixLen() {
+	if _, ok := u.funDecls["psum"]; ok {
+		return
+	}
+	arr := arrSort(SInt, SSlice)
+	u.declFun("psum", fmt.Sprintf("(declare-fun psum (%s Int Int) Int)", arr))
+	u.axioms = append(u.axioms,
+		fmt.Sprintf("(assert (forall ((a %s) (off Int) (i Int)) (! (=> (<= i 0) (= (psum a off i) 0)) :pattern ((psum a off i)))))", arr),
+		fmt.Sprintf("(assert (forall ((a %s) (off Int) (i Int)) (! (=> (>= i 0) (= (psum a off (+ i 1)) (+ (psum a off i) (slen (select a (+ off i)))))) :pattern ((psum a off (+ i 1))) :pattern ((psum a off i) (select a (+ off i))))))", arr))
+}
+
 func (u *Universe) declFun(name string, decl string) {
 	if _, ok := u.funDecls[name]; ok {
 		return
